@@ -6,7 +6,7 @@ from . import common as C
 
 EVENT_NAMES = {1: 'storage got >1 packet', 2: 'sink ring wrapped', 3: 'filter ring wrapped', 4: 'trailing incomplete window',
                10: 'client consumed part of a multi-frame region', 11: 'client saw frames', 12: 'client held a region across stop/abort',
-               40: 'camera fault injected', 41: 'storage fault injected', 42: 'multi-frame packet at storage', 43: 'device closed while started', 45: 'camera changed its shape during the run', 46: 'second open of a device in use refused',
+               40: 'camera fault injected', 41: 'storage fault injected', 42: 'multi-frame packet at storage', 43: 'device closed while started', 45: 'camera changed its shape during the run', 46: 'second open of a device in use refused', 47: 'device open refused',
                20: 'writer slept on a full ring', 21: 'abort arrived while the source was blocked', 22: 'frame delivered after trigger'}
 
 
@@ -238,6 +238,8 @@ def c07_cfgs(tier):
                   dict(n=1000000, variant=2, **base),                 # two concurrent aborts
                   dict(n=1000000, variant=0, client_polls=1, **base)]  # client polling while another thread aborts
     q = [cfg('c07', 'D2', **sit) for sit in situations]
+    # averaging switched off by a live re-configuration (the source waits for the filter to give up its accumulator), then stop / abort
+    q += [cfg('c08', 'D2', prog=p) for p in ('FswAa', 'FswAS', 'FsAa', 'FswAwa')]
     q += [cfg('c07', 1, **situations[0]), cfg('c07', 1, **situations[3])]
     if tier == 'quick':
         return q
@@ -341,6 +343,7 @@ def c08_cfgs(tier):
                                    'FsAS', 'FswAS', 'AsFS', 'AswFwS', 'FsS', 'AsRS', 'AsRsS', 'RsS', 'AsRwsS', 'AsRa',
                                    'EswgS', 'Eswwg', 'Esga', 'EswgsS', 'EswSAsS',
                                    'GsS', 'Gsa', 'GsgS', 'GsAsS', 'GswAsS', 'Gs', 'HsS', 'Hsa', 'HsgS', 'HsAsS', 'Hs',
+                                   'AOAsS', 'AsSOAsS', 'AsSOsS', 'AO', 'AsSO', 'AOsS', 'AsOAsS',
                                    'As0B', 'Bs0A', 'As0S', 'As0a', 'As0sS', 'As0AsS',
                                    'KsS', 'Ksa', 'KswgS', 'KswS', 'Ksw', 'KswAsS', 'JsS', 'Jsa', 'Js', 'JswS', 'Js2sS', 'TsS', 'AsTS', 'AsTsS', 'TsAsS', 'AswTa']
         c = [cfg('c08', 'D1', prog=p) for p in progs]
